@@ -22,7 +22,7 @@
    checkpoints of every kind, the follower's file is the primary's LOGICAL database - the last
    committed version of a page in the primary's log, else the primary's file. *)
 From Coq Require Import NArith List Bool.
-Require Import LF.Model.PageDB LF.Model.Repl LF.Proofs.ChainProofs LF.Proofs.ReplProofs LF.Proofs.ChecksumProofs LF.Proofs.HistoryProofs LF.Proofs.WalHistoryProofs LF.Proofs.WalCheckpointProofs LF.Proofs.SqlCheckpointProofs LF.Proofs.ApplyHistoryProofs LF.Proofs.ComposeProofs LF.Proofs.FollowProofs LF.Proofs.FollowWalProofs LF.Proofs.FollowGProofs.
+Require Import LF.Model.PageDB LF.Model.Repl LF.Proofs.ChainProofs LF.Proofs.ReplProofs LF.Proofs.ChecksumProofs LF.Proofs.HistoryProofs LF.Proofs.WalHistoryProofs LF.Proofs.WalCheckpointProofs LF.Proofs.SqlCheckpointProofs LF.Proofs.ApplyHistoryProofs LF.Proofs.ComposeProofs LF.Proofs.FollowProofs LF.Proofs.FollowWalProofs LF.Proofs.FollowGProofs LF.Proofs.SnapshotProofs.
 Import ListNotations.
 Local Open Scope N_scope.
 
@@ -159,3 +159,43 @@ Example C01_follower_history_nonvacuous :
   | None => False
   end.
 Proof. exact follower_identical_g_example. Qed.
+
+(* The late joiner.  [snapshot_file s]: the file that starts at TXID 1, names the node's position and size, and holds what
+   readPage returns for every page of the database but the lock page (the log's index, else the database file) - what
+   WriteSnapshotTo streams.  For EVERY history of the primary into and through WAL mode (as in C04_wal_full_history): a node
+   that starts empty and applies that snapshot is at the primary's position and its database file holds the primary's
+   logical database, page for page.  Nothing is assumed about checksums (the snapshot is taken on a quiescent primary; the
+   interleaved case is C10). *)
+Theorem C01_late_joiner : forall lock hs zf acts c os s1 s2 s' v' sR,
+  1 <= lock -> wf_hist (init lock) hs -> run_hsteps (init lock) hs = Some s1 ->
+  wf_tx_any s1 zf acts -> run_group s1 (hops s1 (HTx zf acts c)) = (0, s2) -> wal_mode s2 = true ->
+  wf_wops2 s2 os -> run_wops2 s2 (file_h s2) os = Some (s', v') ->
+  op_receive (init lock) (snapshot_file s') = (Done, sR) ->
+  txid sR = txid s' /\ chk sR = chk s' /\ pageN sR = pageN s' /\
+  (forall p, 1 <= p <= pageN s' -> p <> lock -> fpg sR p = lpage s' p).
+Proof. exact late_joiner_history. Qed.
+Print Assumptions C01_late_joiner.
+
+(* Non-vacuity: the snapshot is taken while the primary's database file is behind its log; the joiner's file is the logical
+   database *)
+Example C01_late_joiner_nonvacuous :
+  let pg h := mkPg (fl h) 0 false in
+  let pw h := mkPg (fl h) 0 true in
+  let hs := [HTx [] [AWrite 1 (pg 11); AWrite 2 (pg 12)] 2] in
+  let sw := [AWrite 1 (pw 13)] in
+  let os := [W2Commit [(2, pw 22); (3, pw 33); (2, pw 23)] 3; W2BackfillOld 2 (pw 22); W2Commit [(1, pw 14)] 2; W2Checkpoint;
+             W2Commit [(3, pw 35); (1, pw 15)] 3] in
+  exists s1 s2,
+    wf_hist (init 2097153) hs /\ run_hsteps (init 2097153) hs = Some s1 /\
+    wf_tx_any s1 [] sw /\ run_group s1 (hops s1 (HTx [] sw 2)) = (0, s2) /\ wal_mode s2 = true /\
+    wf_wops2 s2 os /\
+    match run_wops2 s2 (file_h s2) os with
+    | Some (s', v') =>
+        match op_receive (init 2097153) (snapshot_file s') with
+        | (Done, sR) => (txid sR, pageN sR, chk sR =? chk s', map (fpg sR) [1; 2; 3], map (fpg s') [1; 2; 3])
+                        = (5, 3, true, [pw 15; pw 23; pw 35], [pw 14; pw 23; zero_pg])
+        | _ => False
+        end
+    | None => False
+    end.
+Proof. exact late_joiner_example. Qed.
